@@ -119,12 +119,13 @@ EvFit ==
   /\ Accept
   /\ ei' = ei + 1 /\ UNCHANGED <<evars, cs, bkey, used, tag>>
 
-\* a numerical failure inside the initialisation or an EM step ends the fit at once
+\* a numerical failure inside an initialisation or an EM step ends the fit at once: before the first run
+\* (initialisation), inside a run, or at the start of a later run (its initialisation -- or, for the code that
+\* continues, the first EM step of the run, which fails before the run has logged an iteration)
 NumErrs == {"LinalgError", "EmptyCluster", "MinMaxError", "KMeansError", "LinfaError"}
 EvFitAbort ==
   /\ Live /\ HasEv("fit") /\ ei = NEv /\ pc \in {"start", "iter"}
   /\ Ev.steps = NEv - 1 /\ ~Ev.ok /\ Ev.err \in NumErrs
-  /\ (pc = "start" => run = 0) = TRUE
   /\ Accept
   /\ ei' = ei + 1 /\ UNCHANGED <<evars, cs, bkey, used, tag>>
 
